@@ -13,10 +13,11 @@
 			    var s interface{}
 				s, err = c.Get({{export $service.Name}})
 				if err != nil {
-                    return nil, {{ groupErrorAlias }}.Prefix(
+                    err = {{ groupErrorAlias }}.Prefix(
                         {{ importAlias "fmt" }}.Sprintf("%s.%s(): ", {{export $containerType}}, {{export $service.Getter}}),
                         err,
                     )
+                    return
                 }
 				err = {{ groupErrorAlias }}.Prefix(
                     {{ importAlias "fmt" }}.Sprintf("%s.%s(): ", {{export $containerType}}, {{export $service.Getter}}),
@@ -33,10 +34,11 @@
                 var s interface{}
                 s, err = c.GetInContext(ctx, {{export $service.Name}})
                 if err != nil {
-                    return nil, {{ groupErrorAlias }}.Prefix(
+                    err = {{ groupErrorAlias }}.Prefix(
                         {{ importAlias "fmt" }}.Sprintf("%s.%sInContext(): ", {{export $containerType}}, {{export $service.Getter}}),
                         err,
                     )
+                    return
                 }
                 err = {{ groupErrorAlias }}.Prefix(
                     {{ importAlias "fmt" }}.Sprintf("%s.%sInContext(): ", {{export $containerType}}, {{export $service.Getter}}),
